@@ -1,6 +1,7 @@
 package checks
 
 import (
+	"verif/internal/refdict"
 	"bytes"
 	"encoding/json"
 	"fmt"
@@ -258,6 +259,45 @@ func c04Enum(ctx *ev.Ctx, fn func(*Config, C04Case)) string {
 			emit(c, c.wgroup(gi, []WRec{look, tail}))
 			emit(c, look)
 		}
+		// groups defined by DIFFERENT applications of the message's parent chain nested in each other:
+		// a group the base application defines holding a group only the message's own application
+		// defines, and the other way round (members are resolved for the message's application, at
+		// every depth)
+		{
+			byApp := map[uint32][]*refdict.XAVP{}
+			var appsSeen []uint32
+			for _, v := range c.A.D.M.All {
+				if v.Data.Type != "Grouped" || v.Vendor != 0 || c.A.D.M.FindCode(c.A.App, v.Code, refdict.AnyVendor) != v {
+					continue
+				}
+				if len(byApp[v.App]) == 0 {
+					appsSeen = append(appsSeen, v.App)
+				}
+				if len(byApp[v.App]) < 2 {
+					byApp[v.App] = append(byApp[v.App], v)
+				}
+			}
+			mk := func(v *refdict.XAVP, kids ...WRec) WRec {
+				return WRec{Code: v.Code, Flags: mflag(v.Must), Decl: -1, Group: true, Kids: kids, Tag: fmt.Sprintf("group/%d(app %d)", v.Code, v.App)}
+			}
+			if len(appsSeen) >= 2 && len(full) > 0 {
+				leaf := full[0]
+				for _, ai := range appsSeen {
+					for _, bi := range appsSeen {
+						if ai == bi {
+							continue
+						}
+						for _, ga := range byApp[ai] {
+							for _, gb := range byApp[bi] {
+								emit(c, mk(ga, mk(gb, leaf, tail), tail), tail)
+								emit(c, mk(ga, mk(gb, mk(ga, leaf), tail)))
+								emit(c, mk(ga, mk(ga, mk(gb, leaf, tail)), mk(gb)), tail)
+							}
+						}
+					}
+				}
+			}
+		}
 		// wide groups: a grouped member that sits behind many other members (at top level and one
 		// level down) - nesting depth stays 2 or 3, only the member count grows
 		if len(c.A.Groups) > 1 && len(full) > 0 {
@@ -505,7 +545,7 @@ func runC04(ctx *ev.Ctx) {
 			ctx.Report("", generalise(what), what+" | case: "+mc.Desc(), mc)
 		}
 	})
-	ctx.Rule += " The code of every vendor-less Grouped AVP also under a foreign vendor id (a leaf), directly after / before / inside the real group. Wide containers: a grouped AVP behind 0..257 sibling members (counts around 16, 32, 64 and 256), at top level, inside a group and two levels down. Every accepted body is read a second time overlapping with a complete read from another source, after an oversize message. Every top-level record of every accepted body is also decoded with the exported AVP.DecodeFromBytes into ONE AVP value that held a vendor-specific AVP first and then every earlier record, and compared with a fresh decode of the same bytes."
+	ctx.Rule += " Groups defined by different applications of the message's parent chain (two per application) nested in each other to depth 3 in both directions. The code of every vendor-less Grouped AVP also under a foreign vendor id (a leaf), directly after / before / inside the real group. Wide containers: a grouped AVP behind 0..257 sibling members (counts around 16, 32, 64 and 256), at top level, inside a group and two levels down. Every accepted body is read a second time overlapping with a complete read from another source, after an oversize message. Every top-level record of every accepted body is also decoded with the exported AVP.DecodeFromBytes into ONE AVP value that held a vendor-specific AVP first and then every earlier record, and compared with a fresh decode of the same bytes."
 	ctx.Assume = []string{"reference framer (refcodec.Frame) walks by pad4(declared length) only", "a by-Length decoder accepts a sequence iff it accepts each record on its own (used to tell a legitimate value rejection from a framing error)"}
 }
 
